@@ -2,7 +2,7 @@
 
 State = (ref_side, est_side); a side is (times, freqs, voicing) - three tuples of plain floats; `voicing` is ()
 when the optional array (ref_reward on the reference side, est_voicing on the estimate side) is absent.  The
-empty side is ((), (), ()).
+empty side is () (only the state ((), ()) occurs: the measures define 0 for empty arrays).
 
 Two groups of Funcs:
 * the measures on (ref_voicing, ref_cent, est_voicing, est_cent) arrays directly.  The arrays of a state are
@@ -90,7 +90,12 @@ def timebase(kind, n, h):
     return tuple(float(x) for x in t)
 
 
-EMPTY = ((), (), ())
+EMPTY = ()            # the empty side (len 0, so that the generic drivers count it as an empty side)
+
+
+def parts(sd):
+    """(times, freqs, voicing) of a side"""
+    return ((), (), ()) if len(sd) == 0 else sd
 
 
 # ---------------------------------------------------------------------------------- build / model
@@ -99,12 +104,12 @@ def _opt(v):
 
 
 def model_pipe(state):
-    (rt, rf, rr), (et, ef, ev) = state
+    (rt, rf, rr), (et, ef, ev) = parts(state[0]), parts(state[1])
     return ([Fr(t) for t in rt], list(rf), [Fr(t) for t in et], list(ef), _opt(ev), _opt(rr))
 
 
 def build_pipe(state):
-    (rt, rf, rr), (et, ef, ev) = state
+    (rt, rf, rr), (et, ef, ev) = parts(state[0]), parts(state[1])
     a = lambda x: np.array(x, dtype=float)      # noqa
     return (a(rt), a(rf), a(et), a(ef), a(ev) if len(ev) else None, a(rr) if len(rr) else None)
 
@@ -113,7 +118,7 @@ def build_pipe(state):
 def arrays(state):
     """(ref_voicing, ref_cent, est_voicing, est_cent) of a state as tuples of floats: the reference model's
     pre-processing (hop None, linear) with the exact cent table."""
-    if state[0] == EMPTY and state[1] == EMPTY:
+    if len(state[0]) == 0 and len(state[1]) == 0:
         return ((), (), (), ())
     rt, rf, et, ef, ev, rr = model_pipe(state)
     out = S.to_cent_voicing(rt, rf, et, ef, ev, rr, cents=table_cents)
@@ -174,7 +179,7 @@ def opt_direct(keys):
 
 
 def opt_pipe(x, cfg):
-    if x == EMPTY:
+    if len(x) == 0:
         return _optimum_from((), KEYS)
     rt, rf, et, ef, ev, rr = model_pipe((x, x))
     pre = {k: v for k, v in cfg.items() if k in ("hop", "kind")}
@@ -201,62 +206,82 @@ VOICE = (0.0, 0.5, 1.0)
 
 
 def pair_space(tier, phase):
+    """S = A (frames exhaustively on a common time base) + deviation-bounded B (time bases), C (continuous
+    est_voicing / ref_reward), D (estimate with one sample fewer / more on the reference grid)."""
     thorough = tier == "thorough"
     sym = symbols(phase)
     h = HOPS[phase]
     out, seen = [], set()
 
-    def add(rs, es):
-        st = (rs, es)
+    def add(rb, eb, w, rr=(), ev=()):
+        n = len(w)
+        st = (side(timebase(rb, n, h), [sym[p[0]] for p in w], rr), side(timebase(eb, n, h), [sym[p[1]] for p in w], ev))
         if st not in seen:
             seen.add(st)
             out.append(st)
 
-    def fr(word):
-        return [sym[s] for s in word]
+    def pairs(refs, ests):
+        return [(r, e) for r in refs for e in ests]
 
-    add(EMPTY, EMPTY)
-    frames = [(r, e) for r in REF_SYMS for e in EST_SYMS]                # 21 per-frame pairs
+    out.append((EMPTY, EMPTY))
+    frames = pairs(REF_SYMS, EST_SYMS)                                   # the 21 per-frame pairs
     bases = ("same", "shifted", "shorter", "longer", "late", "lateg")
-    # A. frames exhaustively, common time base, no voicing arrays: 21^n
-    for n in range(1, (4 if thorough else 3) + 1):
-        t = timebase("same", n, h)
+    # A. frames exhaustively, common time base, no voicing arrays: 21^n, n <= 3; thorough: 4 frames over 15 pairs
+    for n in (1, 2, 3):
         for w in words(frames, n):
-            add(side(t, fr([p[0] for p in w])), side(t, fr([p[1] for p in w])))
-    # B. time bases: every (reference base, estimate base) for 2 frames; estimate bases for 3 (thorough: 4) frames
-    #    over a reduced estimate alphabet
-    for n in (2, 3) if thorough else (2,):
-        for w in words(frames, n):
-            for rb in ("same", "late"):
-                for eb in bases:
-                    add(side(timebase(rb, n, h), fr([p[0] for p in w])),
-                        side(timebase(eb, n, h), fr([p[1] for p in w])))
-    red = [(r, e) for r in REF_SYMS for e in ("0", "f0", "p51", "oct")]
-    n = 4 if thorough else 3
-    for w in words(red if not thorough else [(r, e) for r in ("0", "f0") for e in ("0", "f0", "p51")], n):
+            add("same", "same", w)
+    if thorough:
+        for w in words(pairs(REF_SYMS, ("0", "f0", "-f0", "p51", "oct")), 4):
+            add("same", "same", w)
+    # B. time bases.  2 frames: every (reference base, estimate base); 3 frames: every estimate base (quick: over
+    #    9 per-frame pairs); thorough also 3 frames with a late reference and 4 frames over 6 pairs
+    for w in words(frames, 2):
+        for rb in ("same", "late"):
+            for eb in bases:
+                add(rb, eb, w)
+    for w in words(frames if thorough else pairs(REF_SYMS, ("0", "f0", "p51")), 3):
         for eb in bases[1:]:
-            add(side(timebase("same", n, h), fr([p[0] for p in w])),
-                side(timebase(eb, n, h), fr([p[1] for p in w])))
-    # C. continuous voicing / reward
-    vframes = [(r, e) for r in ("0", "f0") for e in ("0", "f0", "-f0", "p51")]
-    for n in (2, 3) if thorough else (2,):
-        vs = [()] + words(VOICE, n)
-        ws = words(vframes, n) if n == 2 else words([(r, e) for r in ("0", "f0") for e in ("0", "f0", "-f0")], n)
-        for w in ws:
-            for rr in vs:
-                for ev in vs:
-                    if n == 3 and len(rr) and len(ev) and rr != ev:
-                        continue             # 3 frames: one array, or both equal (deviation-bounded)
-                    add(side(timebase("same", n, h), fr([p[0] for p in w]), rr),
-                        side(timebase("same", n, h), fr([p[1] for p in w]), ev))
-            for eb in ("shorter", "late", "longer") if thorough else ("shorter", "late"):
-                for rb in ("same", "late"):
-                    for rr, ev in [(v, ()) for v in vs[1:]] + [((), v) for v in vs[1:]] + [(v, v) for v in vs[1:]]:
-                        if n == 3 and (rb != "same" or eb == "longer"):
-                            continue
-                        add(side(timebase(rb, n, h), fr([p[0] for p in w]), rr),
-                            side(timebase(eb, n, h), fr([p[1] for p in w]), ev))
-    out.sort(key=lambda st: len(st[0][0]) + len(st[1][0]))      # stable: shortest first
+            add("same", eb, w)
+    if thorough:
+        for w in words(pairs(REF_SYMS, ("0", "f0", "p51", "oct")), 3):
+            for eb in bases:
+                add("late", eb, w)
+        for w in words(pairs(("0", "f0"), ("0", "f0", "p51")), 4):
+            for eb in bases[1:]:
+                add("same", eb, w)
+    # C. continuous est_voicing / ref_reward over {0, .5, 1}^n (() = absent)
+    vs = [()] + words(VOICE, 2)
+    for w in words(pairs(("0", "f0"), ("0", "f0", "-f0", "p51")), 2):
+        for rr in vs:
+            for ev in vs:
+                add("same", "same", w, rr, ev)
+        one = [(v, ()) for v in vs[1:]] + [((), v) for v in vs[1:]] + [(v, v) for v in vs[1:]]
+        for eb in ("shorter", "late", "longer") if thorough else ("shorter", "late"):
+            for rb in ("same", "late"):
+                for rr, ev in one:
+                    add(rb, eb, w, rr, ev)
+    if thorough:
+        vs = words(VOICE, 3)
+        one = [(v, ()) for v in vs] + [((), v) for v in vs] + [(v, v) for v in vs]
+        for w in words(pairs(("0", "f0"), ("0", "f0", "-f0")), 3):
+            for rr, ev in one:
+                add("same", "same", w, rr, ev)
+        for w in words(pairs(("0", "f0"), ("0", "f0")), 3):
+            for eb in ("shorter", "late"):
+                for rr, ev in one:
+                    add("same", eb, w, rr, ev)
+    # D. estimate with one sample fewer / one more than the reference, on the reference grid
+    for n in (2, 3):
+        t = timebase("same", n + 1, h)
+        for rw in words(REF_SYMS, n):
+            for m in (n - 1, n + 1):
+                for ew in words(("0", "f0", "p51"), m):
+                    for ev in ((), (0.5,) * m) if thorough else ((),):
+                        st = (side(t[:n], [sym[x] for x in rw]), side(t[:m], [sym[x] for x in ew], ev))
+                        if st not in seen:
+                            seen.add(st)
+                            out.append(st)
+    out.sort(key=lambda st: len(parts(st[0])[0]) + len(parts(st[1])[0]))      # stable: shortest first
     return out
 
 
@@ -283,8 +308,8 @@ def single_space(tier, phase):
 # ---------------------------------------------------------------------------------- functions
 TOL4 = [50, 49, 51, 100, 1200]            # exact-threshold states: differences of exactly 49 / 51 / 1200 cents
 TOL_CHAIN4 = [25, 49, 50, 51, 100, 600, 1200]
-TOL_PIPE = [50, 25, 100]
-TOL_CHAIN_PIPE = [10, 25, 50, 100, 400, 1300]
+TOL_PIPE = [50, 25, 70]               # 100 would sit on lattice differences (e.g. 1151 vs 51 cents folds to 100)
+TOL_CHAIN_PIPE = [10, 25, 50, 70, 400, 1300]
 P01 = {k: "P01" for k in KEYS}
 ACC_KEYS = ["Raw Pitch Accuracy", "Raw Chroma Accuracy", "Overall Accuracy"]
 
@@ -301,8 +326,7 @@ FUNCS = [
          S.overall_accuracy, {KEYS[4]: "P01"}, optimum=opt_direct(KEYS[4:5]),
          mono=[("cent_tolerance", TOL_CHAIN4)], mono_keys=[KEYS[4]]),
     Func("melody.to_cent_voicing+measures", pipeline_fn, KEYS,
-         {"cent_tolerance": TOL_PIPE, "hop": HOP_PARAM, "kind": ["linear", "nearest", "zero"],
-          "base_frequency": [10.0, 55.0]},
+         {"cent_tolerance": TOL_PIPE, "hop": HOP_PARAM, "kind": ["linear", "nearest", "zero"]},
          build_pipe, model_pipe, S.pipeline, P01, optimum=opt_pipe,
          mono=[("cent_tolerance", TOL_CHAIN_PIPE)], mono_keys=ACC_KEYS,
          nested=[("Raw Pitch Accuracy", "Raw Chroma Accuracy")]),
@@ -423,9 +447,7 @@ def fixture_check(tier):
             raise core.HarnessError("melody model: test_continuous_voicing_metrics case %r/%r: model %r recorded %r"
                                     % (ev, rr, [float(g) for g in got], want))
         checked += 1
-    if near:
-        core.log("melody fixtures: %d pair(s) skipped (frame within 1e-7 cent of the tolerance)" % near) \
-            if hasattr(core, "log") else None
+    fixture_check.near_threshold_skipped = near        # fixture pairs with a frame within 1e-7 cent of 50 (measured: 0)
     return checked
 
 
